@@ -7,6 +7,7 @@
 From Rend Require Import base.Bytes gen.Consts_gen gen.Tables_gen.
 From Rend Require Import metrics.Lzcnt metrics.LzcntProofs metrics.Bucket metrics.BucketProofs.
 From Rend Require Import metrics.Hist metrics.HistProofs metrics.Counter metrics.CounterProofs.
+From Rend Require Import metrics.HistConc metrics.HistConcProofs.
 Open Scope N_scope.
 
 (* ---- buckets (tables are the generated ones) ---- *)
@@ -87,6 +88,25 @@ Theorem c18_hist_all_periods : forall sampled ps, Forall obs_ok ps ->
 Proof. exact periods_good_newHist. Qed.
 Print Assumptions c18_hist_all_periods.
 
+(* ---- histogram, several goroutines ----
+   Any number of goroutines enter ObserveHist on the period's fresh counters (stale buffer b), one per
+   value of vs; each sync/atomic operation and the buffer store is one step; the steps interleave in
+   ANY order (sys_run), CAS retries included; when all have returned the reader builds its report:
+   count = number of calls, and if percentiles are printed each is one of the values and lies
+   between the true min and max.  (Trusted: atomicity of sync/atomic, and the RWMutex which makes
+   a period consist of complete calls.) *)
+Theorem c18_hist_concurrent : forall sampled vs b d ts,
+  obs_ok vs ->
+  sys_run sampled (fresh_dat b, start_threads vs) (d, ts) -> forallb is_done ts = true ->
+  good_report sampled vs (report_of d).
+Proof. exact conc_report_good. Qed.
+Print Assumptions c18_hist_concurrent.
+
+(* report_of is what the sequential theorems call the report *)
+Theorem c18_hist_report_of : forall h, fst (extract h) = report_of (dat h).
+Proof. exact extract_report. Qed.
+Print Assumptions c18_hist_report_of.
+
 (* ---- counters ---- *)
 Theorem c18_counter : forall threads trace c0, c0 < two64 -> interleave threads trace ->
   run_adds c0 trace = (c0 + sum_adds (concat threads)) mod two64.
@@ -114,6 +134,19 @@ Proof.
   cbv zeta. split; [eexists; reflexivity|]. split.
   - split; [repeat constructor|reflexivity].
   - vm_compute. repeat split.
+Qed.
+
+(* two goroutines observing 5 and 9 whose steps interleave so that a CompareAndSwap of the first
+   one fails and is retried: the run exists, ends with both returned, and reports 5 and 9 *)
+Example c18_nonvacuous_concurrent :
+  let s := run_sched false (fresh_dat buf0, start_threads [5; 9])
+             [0; 0; 1; 1; 1; 0; 0; 0; 1; 0; 1; 0; 1; 0; 1; 0; 1; 0; 0; 1; 1]%nat in
+  sys_run false (fresh_dat buf0, start_threads [5; 9]) s /\
+  forallb is_done (snd s) = true /\
+  r_count (report_of (fst s)) = 2 /\ r_min (report_of (fst s)) = 5 /\ r_max (report_of (fst s)) = 9 /\
+  nth 10 (r_pctls (report_of (fst s))) 0 = 9.
+Proof.
+  cbv zeta. split; [apply run_sched_sound|]. vm_compute. repeat split.
 Qed.
 
 Example c18_nonvacuous_bucket :
